@@ -3,17 +3,17 @@ import os
 import sys
 sys.path.insert(0, os.path.join(os.path.dirname(os.path.abspath(__file__)), '..', 'fileio'))
 import fileio_proofs  # noqa: E402
-PROOFS = [fileio_proofs.dsf_proof(), fileio_proofs.bcf_proof()]
+PROOFS = [fileio_proofs.dsf_proof(), fileio_proofs.bcf_proof(), fileio_proofs.md5file_proof()]
 EXPLANATION = ('Kernel of C13: do_source_file() verified against ALL outcomes of every libc/helper call (each replaced by a contract that may succeed or fail): '
                'in place, the only file opened for writing is <target>.uncrustify; rename() over the target is reachable only after the temporary file was closed '
                'successfully with no write error; a failed backup, open, close, write or rename never leads to a normal return.')
-K = ['K1c\' backup_copy_file: EX_OK => the backup was handed exactly the original bytes, or was legitimately skipped', 'K1a target never opened for writing in place (fopen_contract precondition)', 'K1b rename only after successful close and no write error (rename_contract precondition)',
+K = ['K1c\' backup_copy_file: EX_OK => the backup was handed exactly the original bytes AND its stream was closed successfully (the buffered bytes reached the file), or the backup was legitimately skipped',
+     'K1e backup_create_md5_file: a read error while digesting never leaves an md5 behind and exits non-zero', 'K1a target never opened for writing in place (fopen_contract precondition)', 'K1b rename only after successful close and no write error (rename_contract precondition)',
      'K1c target replaced only if the backup was made unless --no-backup (postcondition)', 'K1d normal return => no failure seen (postcondition)']
 G = ['crash points / kill signals between calls are not expressible in a sequential function contract: NOT covered; rename(2) is assumed atomic',
-     'backup_copy_file returns EX_OK only if fwrite accepted exactly the original bytes (proved); it ignores the result of fclose on the backup file, so a flush failure of the backup is NOT detected (latent hazard, DESIGN 9.5)',
      'formatting failures exit inside uncrustify_file, i.e. before the rename block (uncrustify_file_contract: may not return)',
      'the --replace loop over several files in main()/process_source_list is not covered']
 
 sys.path.insert(0, os.path.join(os.path.dirname(os.path.abspath(__file__)), '..', '..', 'tools'))
 import replay_lib  # noqa: E402
-REPLAY = replay_lib.make_replay(replay_lib.scenario_failed_close, replay_lib.scenario_failed_backup, replay_lib.scenario_md5_after_rename)
+REPLAY = replay_lib.make_replay(replay_lib.scenario_failed_close, replay_lib.scenario_backup_close_fault, replay_lib.scenario_failed_backup, replay_lib.scenario_md5_after_rename, replay_lib.scenario_md5_read_fault)
